@@ -199,7 +199,7 @@ func (g *Gen) cond() string {
 
 // Stmt yields one top-level-capable statement (may span lines).
 func (g *Gen) Stmt(depth int) string {
-	k := g.R.IntN(64)
+	k := g.R.IntN(67)
 	if depth > 2 && k >= 40 {
 		k = g.R.IntN(40)
 	}
@@ -354,8 +354,22 @@ func (g *Gen) Stmt(depth int) string {
 	case 62:
 		g.feat("getopts")
 		return "getopts ab:c o -ac -b; echo \"o=$o i=$OPTIND\""
-	default:
+	case 63:
 		return g.cond() + " && " + g.simple() + " || " + g.simple()
+	case 64:
+		// an expansion-relevant POSIX option toggled through shopt -o / set -o / set -u / set -f,
+		// followed in the same file by an expansion that depends on it
+		g.feat("opt-then-expansion")
+		on := g.pick([]string{"shopt -s -o nounset", "set -o nounset", "set -u", "shopt -u -o nounset", "set +u"})
+		return on + "\necho \"v: $never_set_" + fmt.Sprint(g.R.IntN(3)) + " ${" + g.pick(vars[:3]) + "}\"\necho after-nounset"
+	case 65:
+		g.feat("opt-then-expansion")
+		on := g.pick([]string{"shopt -s -o noglob", "set -o noglob", "set -f", "shopt -u -o noglob", "set +f", "set +o noglob"})
+		return on + "\necho * d?\necho after-noglob"
+	default:
+		g.feat("opt-then-expansion")
+		on := g.pick([]string{"shopt -s nullglob", "shopt -u nullglob", "shopt -s dotglob", "shopt -s extglob", "shopt -s -o allexport", "shopt -s -o errexit", "shopt -s -o pipefail"})
+		return on + "\necho nomatch* .[a-z]* @(d1|d2)\n" + g.pick(vars[:3]) + "=ae; false | true; echo \"pf=$?\""
 	}
 }
 
